@@ -322,7 +322,17 @@ def shrink(case):
                                                                       o[-1] not in [p[1] for p in c["ops"] if p[0] == "periodic"] for o in c["ops"]):
                 yield c
         return
-    yield from vc.shrink_script(case)
+    for c in vc.shrink_script(case):
+        if all(_ret_ok(op[4]) for op in c["ops"] if op[0] == "sched"):
+            yield c
+
+
+def _ret_ok(node):
+    """a node may only return the handle of a child it schedules itself"""
+    kids = [st[4] for st in node["steps"] if st[0] == "sched"]
+    if node.get("ret") is not None and node["ret"] not in [k["id"] for k in kids]:
+        return False
+    return all(_ret_ok(k) for k in kids)
 
 
 LEVEL_TEXT = ("Lean: on the model of CatchScheduler over the virtual-time scheduler, for arbitrary action trees — (1) if all calls go through the "
